@@ -89,11 +89,11 @@ PROPS = {
                 "granted one at a time): 2 clients, 3-4 resources with reference graphs (sharing, cycles, self references), "
                 "subscribe/unsubscribe/get, service change/add/remove/custom events made unique by a fresh tag, answers in any order; "
                 "the Coq monitor (Spec/Monitors.v) rebuilds each client's copy from frames and compares it with the service truth at every "
-                "quiescent point; non-trivial = more than 4 client frames and at least one quiescent point; plus direct-drive op sequences on one cached resource",
+                "quiescent point; non-trivial = more than 4 client frames and at least one quiescent point; plus direct-drive op sequences on one cached resource; plus the `core` stage: 1,500 (20,000) histories of the real gateway inside the fragment of Comp/Core.v (3 clients, one flat model or collection, subscribe / unsubscribe with counts and parameter variants, access verdicts drawn per connection and token, token and reaccess events, change / add / remove / custom events incl. partly ineffective changes, disconnects, random interleaving of every stimulus with every grant), each run in lock-step with the extracted machine: every output compared; 43 branches of the machine counted",
         "assumptions": ["consistent service: answers come from the truth at answer time, every mutation of a subscribed resource is announced by an event, per-resource order is preserved",
                         "WebSocket clients negotiate 1.2.1, 1.2.0, 1.1.1 or send no version request (legacy profiles); the legacy call/auth response format of 1.1.1 is not exercised"],
-        "technique": "Coq proof (single-resource convergence over all schedules, Comp/Conv.v; cache-side model ResSub) + Coq monitor `monitor` (extracted) evaluated on scheduled traces of the real gateway + direct-drive correspondence of the cache side",
-        "level_text": "The single-resource core (cache versioning, subscriber queue, late snapshots) is proved for all schedules; the graph-wide statement is the extracted Coq monitor evaluated on explored histories of the real code",
+        "technique": "Theorems over every sequence of stimuli and scheduler grants on the integrated model Comp/Core.v (connections x one flat resource, both task queues; built on Comp/Conv.v), run in LOCK-STEP with the real gateway on explored histories (every output compared) + Coq proof (single-resource convergence over all schedules, Comp/Conv.v; cache-side model ResSub) + Coq monitor `monitor` (extracted) evaluated on scheduled traces of the real gateway + direct-drive correspondence of the cache side",
+        "level_text": "For the slice of Comp/Core.v the property is a theorem about every history (client copy rebuilt from frames = service state at quiescence; two premises, each shown necessary by a refuting history) and the machine is tied to the code by lock-step; the single-resource core (Conv) is proved for all schedules; beyond the slice (references) the statement is the extracted Coq monitor evaluated on explored histories of the real code",
         "level_note": "trusted: Coq kernel, extraction, the harness (mock messaging system, consistent mock service, scheduler hooks, frame abstraction in harness/internal/gw); task atomicity (DESIGN section 4); modelled not verified: encoding/json, gorilla/websocket",
     },
     "C02": {
@@ -118,10 +118,10 @@ PROPS = {
         "stages": [("core", stage_core, {"n_quick": 1500, "n_thorough": 20000}),
                    ("gw", stage_gw, {"profiles": [("basic", 200, 2000), ("refs", 300, 3000), ("churn", 300, 3000), ("access", 250, 2000), ("scacc", 250, 2000), ("reset", 300, 2000), ("accrefs", 200, 1500), ("legacy", 200, 1500), ("scgraph", 250, 2000), ("resetf", 300, 2500), ("resetdel", 300, 2500), ("wild", 0, 1500)]})],
         "rule": "as C01; every service event carries a unique tag; per client and resource the delivered events must be a contiguous run "
-                "of the service stream (candidate-position tracking, no false alarm on repeated identical events), nothing missing at quiescence",
+                "of the service stream (candidate-position tracking, no false alarm on repeated identical events), nothing missing at quiescence; plus the `core` stage: 1,500 (20,000) histories of the real gateway inside the fragment of Comp/Core.v (3 clients, one flat model or collection, subscribe / unsubscribe with counts and parameter variants, access verdicts drawn per connection and token, token and reaccess events, change / add / remove / custom events incl. partly ineffective changes, disconnects, random interleaving of every stimulus with every grant), each run in lock-step with the extracted machine: every output compared; 43 branches of the machine counted",
         "assumptions": ["no resets/query events in this stage (superseded events are not exercised)"],
-        "technique": "Coq proof (Conv.v: replay invariant of queued events) + Coq monitor for ordered, gap-free, duplicate-free delivery evaluated on scheduled traces of the real gateway",
-        "level_text": "Queue-layer FIFO/version filter proved on the single-resource model; end-to-end statement is the extracted monitor on explored histories",
+        "technique": "Theorems over every sequence of stimuli and scheduler grants on the integrated model Comp/Core.v (connections x one flat resource, both task queues; built on Comp/Conv.v), run in LOCK-STEP with the real gateway on explored histories (every output compared) + Coq proof (Conv.v: replay invariant of queued events) + Coq monitor for ordered, gap-free, duplicate-free delivery evaluated on scheduled traces of the real gateway",
+        "level_text": "For the slice of Comp/Core.v: the frames delivered to a client rebuild exactly its subscription's copy at every moment, and Conv's replay invariant holds in every reachable state (theorems, machine tied by lock-step); beyond the slice the end-to-end statement is the extracted monitor on explored histories",
         "level_note": "trusted: Coq kernel, extraction, the harness (mock messaging system, consistent mock service, scheduler hooks, frame abstraction in harness/internal/gw); task atomicity (DESIGN section 4); modelled not verified: encoding/json, gorilla/websocket",
     },
     "C07": {
@@ -133,10 +133,10 @@ PROPS = {
                    ("subfsm", stage_pure, {"suites": ["subfsm"], "n_quick": 3000, "n_thorough": 80000, "widen": 1}),
                    ("gw", stage_gw, {"profiles": [("basic", 200, 2000), ("refs", 200, 2500), ("churn", 300, 3000), ("access", 300, 2500), ("scacc", 300, 2500), ("reset", 200, 1500), ("accrefs", 200, 1500), ("http", 250, 2000), ("scthr1", 400, 3000), ("scthr2", 200, 1500), ("wild", 0, 1500)]})],
         "rule": "as C01; response ledger: every response matches exactly one outstanding request id of that connection, nothing outstanding at quiescence; "
-                "plus the dispatcher differential (exactly one immediate reply or one requester call per method string)",
+                "plus the dispatcher differential (exactly one immediate reply or one requester call per method string); plus the `core` stage: 1,500 (20,000) histories of the real gateway inside the fragment of Comp/Core.v (3 clients, one flat model or collection, subscribe / unsubscribe with counts and parameter variants, access verdicts drawn per connection and token, token and reaccess events, change / add / remove / custom events incl. partly ineffective changes, disconnects, random interleaving of every stimulus with every grant), each run in lock-step with the extracted machine: every output compared; 43 branches of the machine counted",
         "assumptions": [],
-        "technique": "Coq proof (dispatcher: forwarded or invalidRequest; subscription machine: for every operation sequence no request continuation runs twice and only registered ones run) + direct-drive correspondence of one real Subscription (VerifSub) + Coq response-ledger monitor evaluated on scheduled traces of the real gateway",
-        "level_text": "Dispatcher totality proved; the exactly-one-response statement is the extracted monitor on explored histories",
+        "technique": "Theorems over every sequence of stimuli and scheduler grants on the integrated model Comp/Core.v (connections x one flat resource, both task queues; built on Comp/Conv.v), run in LOCK-STEP with the real gateway on explored histories (every output compared) + Coq proof (dispatcher: forwarded or invalidRequest; subscription machine: for every operation sequence no request continuation runs twice and only registered ones run) + direct-drive correspondence of one real Subscription (VerifSub) + Coq response-ledger monitor evaluated on scheduled traces of the real gateway",
+        "level_text": "For the slice of Comp/Core.v: no id answered twice, only requested ids, every request answered or its continuation dropped with its subscription (theorem; 'every request answered' refuted = KF-PENDING-DROPPED), machine tied by lock-step; dispatcher totality proved; beyond the slice the exactly-one-response statement is the extracted monitor on explored histories",
         "level_note": "trusted: Coq kernel, extraction, the harness (mock messaging system, consistent mock service, scheduler hooks, frame abstraction in harness/internal/gw); task atomicity (DESIGN section 4); modelled not verified: encoding/json, gorilla/websocket",
     },
     "C08": {
@@ -146,10 +146,10 @@ PROPS = {
         "stages": [("core", stage_core, {"n_quick": 1500, "n_thorough": 20000}),
                    ("gw", stage_gw, {"profiles": [("basic", 300, 2500), ("churn", 400, 3000), ("access", 250, 2000), ("scacc", 250, 2000), ("accrefs", 200, 1500), ("reset", 200, 1500), ("sclimit", 4, 20), ("gets", 0, 1500), ("wild", 0, 1500)]})],
         "rule": "as C01 with unsubscribe counts (absent, 0, negative, 1..3) and failing gets; ledger driven only by observable successes predicts every "
-                "unsubscribe outcome and is compared with the gateway's own direct counts (introspection) at every quiescent point",
+                "unsubscribe outcome and is compared with the gateway's own direct counts (introspection) at every quiescent point; plus the `core` stage: 1,500 (20,000) histories of the real gateway inside the fragment of Comp/Core.v (3 clients, one flat model or collection, subscribe / unsubscribe with counts and parameter variants, access verdicts drawn per connection and token, token and reaccess events, change / add / remove / custom events incl. partly ineffective changes, disconnects, random interleaving of every stimulus with every grant), each run in lock-step with the extracted machine: every output compared; 43 branches of the machine counted",
         "assumptions": [],
-        "technique": "Coq direct-subscription ledger monitor (extracted) evaluated on scheduled traces of the real gateway, cross-checked against verif-tagged introspection of the gateway's counters",
-        "level_text": "The accounting rule is a decidable Coq predicate evaluated on explored histories; violations are replayable histories",
+        "technique": "Theorems over every sequence of stimuli and scheduler grants on the integrated model Comp/Core.v (connections x one flat resource, both task queues; built on Comp/Conv.v), run in LOCK-STEP with the real gateway on explored histories (every output compared) + Coq direct-subscription ledger monitor (extracted) evaluated on scheduled traces of the real gateway, cross-checked against verif-tagged introspection of the gateway's counters",
+        "level_text": "For the slice of Comp/Core.v: gateway count = client's own count + waiting requests, unsubscribe outcome table in every reachable state, nothing left behind by failed or given-up subscriptions (theorems for every history, machine tied by lock-step; the equation refuted without its premise = KF-PENDING-DROPPED); beyond the slice the accounting rule is a decidable Coq predicate evaluated on explored histories",
         "level_note": "trusted: Coq kernel, extraction, the harness (mock messaging system, consistent mock service, scheduler hooks, frame abstraction in harness/internal/gw); task atomicity (DESIGN section 4); modelled not verified: encoding/json, gorilla/websocket",
     },
     "C04": {
@@ -163,10 +163,10 @@ PROPS = {
         "rule": "histories with a consistent access policy per (token, resource) that changes only together with a reaccess event, token event or "
                 "system reset; every access outcome (grant, get:false, accessDenied, internal error, timeout); subscribe/get/call/auth with "
                 "resource responses, concurrent requests on one resource; monitor: every data delivery for a directly requested resource needs an "
-                "answered get grant for that connection and resource requested after every invalidation that had been followed by a quiescent point",
+                "answered get grant for that connection and resource requested after every invalidation that had been followed by a quiescent point; plus the `core` stage: 1,500 (20,000) histories of the real gateway inside the fragment of Comp/Core.v (3 clients, one flat model or collection, subscribe / unsubscribe with counts and parameter variants, access verdicts drawn per connection and token, token and reaccess events, change / add / remove / custom events incl. partly ineffective changes, disconnects, random interleaving of every stimulus with every grant), each run in lock-step with the extracted machine: every output compared; 43 branches of the machine counted",
         "assumptions": ["an invalidation counts as having reached the gateway once a quiescent point followed it (the gateway's own processing order inside a busy period is not observable)"],
-        "technique": "Coq proof (CanGet verdict table; transient errors never cached; on the subscription machine a handled trigger drops the cached verdict, arms the guard and leaves a validating request outstanding - the stronger 'sent after the trigger' is refuted with the recorded finding as witness) + direct-drive correspondence of one real Subscription (VerifSub) with the extracted machine + Coq access-gating monitor (Spec/AccessMon.v, extracted) evaluated on scheduled traces of the real gateway incl. HTTP requests + differential of Access.CanGet",
-        "level_text": "Verdict logic proved; the gating statement is a decidable Coq predicate over observable traces evaluated on explored histories of the real code",
+        "technique": "Theorems over every sequence of stimuli and scheduler grants on the integrated model Comp/Core.v (connections x one flat resource, both task queues; built on Comp/Conv.v), run in LOCK-STEP with the real gateway on explored histories (every output compared) + Coq proof (CanGet verdict table; transient errors never cached; on the subscription machine a handled trigger drops the cached verdict, arms the guard and leaves a validating request outstanding - the stronger 'sent after the trigger' is refuted with the recorded finding as witness) + direct-drive correspondence of one real Subscription (VerifSub) with the extracted machine + Coq access-gating monitor (Spec/AccessMon.v, extracted) evaluated on scheduled traces of the real gateway incl. HTTP requests + differential of Access.CanGet",
+        "level_text": "For the slice of Comp/Core.v: data reaches a connection only after a get grant for one of its subscriptions (theorem for every history, machine tied by lock-step); verdict logic proved; beyond the slice (references, calls, HTTP) the gating statement is a decidable Coq predicate evaluated on explored histories",
         "level_note": "trusted: Coq kernel, extraction, the harness (mock messaging system, consistent mock service, scheduler hooks, frame abstraction in harness/internal/gw); task atomicity (DESIGN section 4); modelled not verified: encoding/json, gorilla/websocket",
     },
     "C06": {
@@ -179,10 +179,10 @@ PROPS = {
         "rule": "as C04 with token events on connections with and without a token, reaccess events, system resets with access patterns, triggers injected "
                 "while loading, while events are queued and while an earlier check is pending; monitor: every trigger is followed (by the next quiescent "
                 "point) by an access request with a current token for each affected direct subscription, a non-grant verdict by an unsubscribe event, and "
-                "no uniquely tagged event that reached the gateway after the trigger is delivered before the verdict",
+                "no uniquely tagged event that reached the gateway after the trigger is delivered before the verdict; plus the `core` stage: 1,500 (20,000) histories of the real gateway inside the fragment of Comp/Core.v (3 clients, one flat model or collection, subscribe / unsubscribe with counts and parameter variants, access verdicts drawn per connection and token, token and reaccess events, change / add / remove / custom events incl. partly ineffective changes, disconnects, random interleaving of every stimulus with every grant), each run in lock-step with the extracted machine: every output compared; 43 branches of the machine counted",
         "assumptions": [],
-        "technique": "Coq proof (subscription machine, every state: a pending re-check blocks every event, a busy subscription defers the trigger, a non-grant verdict revokes all direct subscriptions with one event and delivers nothing held; counter machine; verdict table) + direct-drive correspondence of one real Subscription (VerifSub) with the extracted machine + Coq revocation monitor (extracted) evaluated on scheduled traces of the real gateway",
-        "level_text": "Counter/verdict logic proved; the revocation statement is a decidable Coq predicate evaluated on explored histories",
+        "technique": "Theorems over every sequence of stimuli and scheduler grants on the integrated model Comp/Core.v (connections x one flat resource, both task queues; built on Comp/Conv.v), run in LOCK-STEP with the real gateway on explored histories (every output compared) + Coq proof (subscription machine, every state: a pending re-check blocks every event, a busy subscription defers the trigger, a non-grant verdict revokes all direct subscriptions with one event and delivers nothing held; counter machine; verdict table) + direct-drive correspondence of one real Subscription (VerifSub) with the extracted machine + Coq revocation monitor (extracted) evaluated on scheduled traces of the real gateway",
+        "level_text": "For the slice of Comp/Core.v: a token event starts or defers the re-validation and events are held until the verdict, a non-grant verdict revokes with one unsubscribe event, nothing is pending at quiescence (theorems for every history, machine tied by lock-step); subscription machine and counter logic proved; system resets and references are monitor-evaluated",
         "level_note": "trusted: Coq kernel, extraction, the harness (mock messaging system, consistent mock service, scheduler hooks, frame abstraction in harness/internal/gw); task atomicity (DESIGN section 4); modelled not verified: encoding/json, gorilla/websocket",
     },
     "C09": {
@@ -195,10 +195,10 @@ PROPS = {
         "rule": "histories with disconnects, evictions fired at arbitrary moments, failing gets, delete events, resource ids around the control-line limit; "
                 "ending with every client gone and every eviction timer fired; monitor at each quiescent point (introspection): use count = subscribers, "
                 "unused <-> queued for eviction, entries = event subscriptions, every get under a standing subscription, data served only after a fetch under "
-                "the standing subscription, nothing left at the end",
+                "the standing subscription, nothing left at the end; plus the `core` stage: 1,500 (20,000) histories of the real gateway inside the fragment of Comp/Core.v (3 clients, one flat model or collection, subscribe / unsubscribe with counts and parameter variants, access verdicts drawn per connection and token, token and reaccess events, change / add / remove / custom events incl. partly ineffective changes, disconnects, random interleaving of every stimulus with every grant), each run in lock-step with the extracted machine: every output compared; 43 branches of the machine counted",
         "assumptions": ["the eviction delay is replaced by an explicit driver action (VerifEvict fires the timer of a queued entry)"],
-        "technique": "Coq proof (use-count / eviction machine, all op sequences, Comp/UseCount.v) + Coq cache life-cycle monitor (extracted) on scheduled traces with verif-tagged introspection",
-        "level_text": "Entry machine proved for all operation sequences; tied to the code by the monitor comparing the gateway's own counters (introspection) on explored histories",
+        "technique": "Theorems over every sequence of stimuli and scheduler grants on the integrated model Comp/Core.v (connections x one flat resource, both task queues; built on Comp/Conv.v), run in LOCK-STEP with the real gateway on explored histories (every output compared) + Coq proof (use-count / eviction machine, all op sequences, Comp/UseCount.v) + Coq cache life-cycle monitor (extracted) on scheduled traces with verif-tagged introspection",
+        "level_text": "Entry machine proved for all operation sequences; for the slice of Comp/Core.v the get request is sent at most once and only under the event subscription (theorem, lock-step); tied to the code by the monitor comparing the gateway's own counters (introspection) on explored histories and by the direct drive of one real ResourceSubscription",
         "level_note": "trusted: Coq kernel, extraction, the harness (mock messaging system, consistent mock service, scheduler hooks, frame abstraction in harness/internal/gw); task atomicity (DESIGN section 4); modelled not verified: encoding/json, gorilla/websocket",
     },
     "C10": {
@@ -224,10 +224,10 @@ PROPS = {
                                      "monitor_props": ("C11", "C09", "C19")})],
         "rule": "disconnect injected at random steps with requests, loads, access checks and queued events outstanding, late answers delivered afterwards; "
                 "monitor at the next quiescent point: no subscription, no conn-event subscription left for the connection, use counts equal remaining "
-                "subscribers, and no service request on its behalf afterwards",
+                "subscribers, and no service request on its behalf afterwards; plus the `core` stage: 1,500 (20,000) histories of the real gateway inside the fragment of Comp/Core.v (3 clients, one flat model or collection, subscribe / unsubscribe with counts and parameter variants, access verdicts drawn per connection and token, token and reaccess events, change / add / remove / custom events incl. partly ineffective changes, disconnects, random interleaving of every stimulus with every grant), each run in lock-step with the extracted machine: every output compared; 43 branches of the machine counted",
         "assumptions": ["HTTP requests are driven through the handler function with a response recorder (no net/http server)"],
-        "technique": "Coq proof (use count stays the number of users under any release order; late release absorbed) + Coq cleanup monitor (extracted) on scheduled traces with introspection",
-        "level_text": "Cache-side accounting proved; the cleanup statement is a decidable Coq predicate evaluated on explored histories with disconnects at arbitrary steps",
+        "technique": "Theorems over every sequence of stimuli and scheduler grants on the integrated model Comp/Core.v (connections x one flat resource, both task queues; built on Comp/Conv.v), run in LOCK-STEP with the real gateway on explored histories (every output compared) + Coq proof (use count stays the number of users under any release order; late release absorbed) + Coq cleanup monitor (extracted) on scheduled traces with introspection",
+        "level_text": "For the slice of Comp/Core.v: after a connection's disposal task nothing is sent to it or requested on its behalf, and every Subscription object of a closed connection is released by the cache once the queues drain (theorems for every history incl. disconnects at any moment, lock-step); use-count machine proved; beyond the slice the cleanup statement is monitor-evaluated with introspection",
         "level_note": "trusted: Coq kernel, extraction, the harness (mock messaging system, consistent mock service, scheduler hooks, frame abstraction in harness/internal/gw); task atomicity (DESIGN section 4); modelled not verified: encoding/json, gorilla/websocket",
     },
     "C15": {
